@@ -143,17 +143,34 @@ def step(t, op, backing):
             return [rc_digest(nz), len(nz)]
         return guard(f)
     if kind == "proof":
-        return guard(lambda: [raw_obs(n) for n in t.get_proof(op[1])])
+        def f():
+            proof = t.get_proof(op[1])
+            out = [raw_obs(n) for n in proof]
+            scribble(proof)
+            return out
+        return guard(f)
     if kind == "fromproof":
         return guard(lambda: bytes(HexaryTrie.get_from_proof(op[1], op[2], [unfreeze(n) for n in op[3]])))
     if kind == "traverse":
-        return guard(lambda: hnode_obs(t.traverse(tuple(op[1]))))
+        def f():
+            node = t.traverse(tuple(op[1]))
+            out = hnode_obs(node)
+            scribble(node.raw)
+            return out
+        return guard(f)
     if kind == "traverse_from":
         try:
             parent = t.traverse(tuple(op[1]))
         except Exception as e:
             return [exc_obs(e)]
-        return guard(lambda: hnode_obs(t.traverse_from(parent, tuple(op[2]))))
+
+        def f():
+            node = t.traverse_from(parent, tuple(op[2]))
+            out = hnode_obs(node)
+            scribble(node.raw)
+            scribble(parent.raw)
+            return out
+        return guard(f)
     if kind == "tf_reads":
         try:
             parent = t.traverse(tuple(op[1]))
@@ -161,7 +178,12 @@ def step(t, op, backing):
             return None
         return count_reads(t, lambda: t.traverse_from(parent, tuple(op[2])))
     if kind == "root_node":
-        return guard(lambda: hnode_obs(t.root_node))
+        def f():
+            node = t.root_node
+            out = hnode_obs(node)
+            scribble(node.raw)
+            return out
+        return guard(f)
     if kind == "drop":
         dict.pop(backing, op[1], None)
         return None
@@ -178,6 +200,21 @@ def step(t, op, backing):
         except Exception as e:
             return exc_obs(e)
     raise ValueError(op)
+
+
+def scribble(x):
+    """A caller may do what it likes with the objects a call RETURNED (decoded nodes are plain mutable lists): overwrite them
+    in place after they have been observed. Later calls must be unaffected - a result that aliases a cache or the trie's own
+    state would be corrupted by this."""
+    if isinstance(x, list):
+        for i, y in enumerate(x):
+            if isinstance(y, (list, tuple)):
+                scribble(y)
+            else:
+                x[i] = b"\xde\xad scribbled by the caller"
+    elif isinstance(x, tuple):
+        for y in x:
+            scribble(y)
 
 
 class CountingProxy:
@@ -410,6 +447,29 @@ def nest_some(rng, inner, p=0.3):
     body = list(inner[a:b])
     ab = None if rng.random() < 0.65 else rng.randint(0, len(body))
     return list(inner[:a]) + [("batch", body, ab)] + list(inner[b:])
+
+
+def gen_there_and_back(rng):
+    """(prior writes, block body): the enclosing block dereferences a node that exists in the database (overwrites or deletes a
+    key), then an INNER block puts exactly that node back (sets the old value again) and commits; optionally the enclosing
+    block goes on. The node is marked DELETED in the enclosing buffer while the inner block re-creates it byte for byte."""
+    k = bytes(rng.choice(CUR_ALPHA) for _ in range(rng.choice([1, 2, 2, 3])))
+    v = bytes([rng.choice(VALBYTES)]) * rng.choice([33, 40, 64])
+    prior = [("set", k, v, "meth")]
+    for _ in range(rng.randint(0, 2)):
+        prior.append(("set", k[:-1] + bytes([rng.choice(CUR_ALPHA)]) + bytes(rng.choice(CUR_ALPHA) for _ in range(rng.randint(0, 1))),
+                      gen_value(rng), "meth"))
+    rng.shuffle(prior)
+    first = ("set", k, bytes([0x7a]) * len(v), "item") if rng.random() < 0.6 else ("del", k, "meth")
+    inner = [("set", k, v, "meth")]
+    if rng.random() < 0.4:
+        inner.append(("get", k, "meth"))
+    body = [first, ("batch", inner, None)]
+    if rng.random() < 0.5:
+        body.append(("get", k, "item"))
+    if rng.random() < 0.3:
+        body.append(("set", gen_key(rng), gen_value(rng), "meth"))
+    return prior, body
 
 
 def apply_model(m, op):
